@@ -288,8 +288,8 @@ def write_loop_rules(F, R, variant):
                 bt = bool_taken(ev)
                 if bt is not None:
                     n_ = norm_cmp(ev.a, bt)
-                    if n_ and n_[0] == "Eq" and _same_var(strip(n_[1]), pos_e) and strip(n_[2])[0] == "const" and strip(n_[2])[1] == 0:
-                        pos_zero = True
+                    if n_ and n_[0] in ("Eq", "Le") and _same_var(strip(n_[1]), pos_e) and strip(n_[2])[0] == "const" and strip(n_[2])[1] == 0:
+                        pos_zero = True  # pos == 0, or pos <= 0 on an unsigned position
             if ev.kind == "assign" and place_is_field(body, ev.a, IOBUF, pois) is not None:
                 if const_bool(ev.b) is True:
                     stored_true = True
@@ -769,6 +769,28 @@ def recv_rules(F, R, variant):
                             rv3 = False
                 else:
                     rv3 = False
+    if not found_switch:
+        # idiom 2: `e.kind == / != ErrorKind::InsufficientSize` through PartialEq
+        kidx = F.adt_field_index("flatty_base::error::Error", "kind")
+        for sbb, st in body.switches():
+            cond = strip(body.expr_of_operand(st["switch"]))
+            if cond[0] == "call" and call_matches(cond, "PartialEq::eq", "PartialEq::ne") and len(cond[3]) == 2:
+                a, c = strip(cond[3][0]), strip(cond[3][1])
+                is_kind = a[0] == "field" and a[2] == kidx and root_call_bb(a) == vbb
+                is_ins = c[0] == "agg" and c[1][0] == "adt" and c[1][1] == "flatty_base::error::ErrorKind" and c[1][2] == "InsufficientSize"
+                if is_kind and is_ins:
+                    found_switch = True
+                    tt = st["otherwise"]
+                    ff = [b_ for v, b_ in st["targets"] if int(v) == 0][0]
+                    eq = call_matches(cond, "PartialEq::eq")
+                    ins_t, other_t = (tt, ff) if eq else (ff, tt)
+                    rv3 = body.edge_dominates((sbb, ins_t), rbb) and rbb not in body.reachable_from(other_t, avoid=[vbb])
+                    parse_ok = True
+                    for p in body.paths(other_t, stop=[vbb]):
+                        evs = events(body, p)
+                        if p[-1] == vbb or not _path_builds_errorkind(evs, "Parse"):
+                            parse_ok = False
+                    rv3 = rv3 and parse_ok
     R.ob("RV3.keyed-on-insufficient-size", fn, "error-dispatch", rv3 and found_switch,
          "the receive loop reads more input exactly on ErrorKind::InsufficientSize; every other validation error is returned as Parse(e)",
          where=where(body, vbb))
